@@ -290,7 +290,6 @@ def interpolate_guard(report, ntargets=2):
         report.inconc('interpolate guard', str(e))
     finally:
         numerical.scipy = saved
-    solver.STATS.queries += q
     report.record('numerical.interpolate raises exactly when a target is outside the grid (2 grid points and 2 targets per dimension, all orderings)',
                   'unsat' if not bad else 'sat', backend='z3py-inproc', sha=f'{paths}p{q}q', group='interpolation bounds guard (symbolic extrema)')
     report.extra['interpolate_guard_paths'] = paths
